@@ -77,6 +77,8 @@ def shrink(prop, ctx_factory, case, what, budget_s=15.0, max_tries=400):
     policy = getattr(prop, "SHRINK", None)
     if not policy:
         return case, what, 0
+    if isinstance(case, dict) and any(case.get(k) for k in policy.get("freeze_if", ())):
+        return case, what, 0       # this case's fields are derived from one another (a built plasmid): not reducible
     kind = kind_of(what)
     t0 = time.time()
     tries = 0
